@@ -20,36 +20,27 @@ EXPLANATION = (
 ASSUMPTIONS = ["usize is at least 32 bits wide (max as usize does not truncate)"]
 
 
-def predicates(f):
-    """closures of the form |max| len > max as usize, with the function they belong to"""
-    out = []
-    for b in f.bodies.values():
-        if b.kind != "closure" or f.in_fuzzing(b):
-            continue
-        t = peel(b.local_term(0))
-        if t[0] == "bin" and t[1] in ("Gt", "Ge", "Lt", "Le", "Ne", "Eq"):
-            sides = (t[2], t[3])
-            has_max = any(s[0] == "cast" and peel(s[2]) == ("param", "max") for s in sides)
-            if has_max:
-                out.append((b, t))
-    return out
+LIMIT = "maximum_packet_size"
+
+
+def _too_large(v):
+    return v is not None and v[0] == "agg" and v[3] == "Err" and "PacketTooLarge" in show(v)
 
 
 def size_checkers(f):
-    """functions that can answer PacketTooLarge from such a predicate, and wrappers returning their result"""
-    preds = predicates(f)
-    owners = {}
-    for (cb, t) in preds:
-        owners.setdefault(cb.root, []).append((cb, t))
+    """functions that themselves answer PacketTooLarge from a comparison with the broker limit (`direct`), and wrappers
+    returning the result of such a function (`allc`)"""
     direct = set()
-    for name in owners:
-        b = f.bodies.get(name)
-        if b is None:
+    for b in f.bodies.values():
+        if b.kind not in ("fn", "assoc_fn") or f.in_fuzzing(b):
             continue
-        txt = show(b.local_term(0))
-        if "PacketTooLarge" in txt:
-            direct.add(name)
-    # wrappers: functions whose result is (or propagates with `?`) the result of a checker
+        builds = any("agg" in s["rv"] and s["rv"]["agg"].get("variant") == "PacketTooLarge" for bb, j, s in b.assigns() if bb in b.reachable)
+        if not builds:
+            continue
+        reads_limit = any(si["enum"] == "core::option::Option" and (chain(si["subject"])[1][-1:] == [LIMIT] or chain(si["subject"]) == (("param", LIMIT), []))
+                          for si in (b.switch_info(bb) for bb in b.switches if bb in b.reachable))
+        if reads_limit:
+            direct.add(b.name)
     allc = set(direct)
     changed = True
     while changed:
@@ -62,37 +53,66 @@ def size_checkers(f):
                 if a[0] == "call" and a[2] in allc:
                     allc.add(b.name)
                     changed = True
-    return direct, allc, owners
+    return direct, allc, {}
 
 
 def rule_pred(R):
+    """each checker, read as a decision over (limit absent / present): absent -> never PacketTooLarge; present ->
+    PacketTooLarge exactly where `len > limit as usize` was tested and holds"""
     f = R.f
-    direct, allc, owners = size_checkers(f)
+    from .. import optsem, panics
+    direct, allc, _ = size_checkers(f)
     n = 0
     for name in sorted(direct):
         b = f.bodies[name]
         R.touch(b)
-        for (cb, t) in owners[name]:
-            n += 1
-            ok = t[1] == "Gt" and t[3][0] == "cast" and peel(t[3][2]) == ("param", "max") and t[3][3] == "usize"
-            R.ob("pred/form/%s" % b.fn_name + ("@" + b.self_ty.split("::")[-1].split("<")[0] if b.self_ty else ""), ok,
-                 "size predicate in %s must be `len > max as usize` (a packet of exactly the maximum size is legal, one "
-                 "byte more is not); found %s" % (b.fn_name, show(t)), where=cb.span)
-        # the predicate is applied to Some(max) via is_some_and and the true edge yields PacketTooLarge
-        okb = False
-        for bb in b.switches:
-            si = b.switch_info(bb)
-            for alt in phi_alts(si["subject"]):
-                if is_call(alt, "is_some_and") and si["edges"].get(True) is not None and si["edges"].get(False) is not None:
-                    # value returned on every path that takes the true edge
-                    vals = []
-                    for lf in paths.explore(b, si["edges"][True], lambda t: False, lambda bd, x: False):
-                        if lf["kind"] == "return":
-                            vals.append(paths.value_on_path(b, [bb] + lf["path"], 0))
-                    okb = bool(vals) and all(v is not None and v[0] == "agg" and v[3] == "Err" and "PacketTooLarge" in show(v) for v in vals)
-        R.ob("pred/verdict/%s" % b.fn_name + ("@" + b.self_ty.split("::")[-1].split("<")[0] if b.self_ty else ""), okb,
-             "%s answers PacketTooLarge exactly on the edge where the predicate holds for a present broker limit" % b.fn_name,
-             where=b.span)
+        key = b.fn_name + ("@" + b.self_ty.split("::")[-1].split("<")[0] if b.self_ty else "")
+        none_o = optsem.decide(b, {LIMIT: "None"})
+        some_o = optsem.decide(b, {LIMIT: "Some"})
+        ok_none = bool(none_o) and not any(_too_large(v) for o in none_o for v in o["values"])
+
+        def limit_cmp(t):
+            """canonical `limit as usize < len` (i.e. len > limit as usize), None otherwise"""
+            c = panics.canon_cmp(t) if isinstance(t, tuple) else None
+            if c is None:
+                return None
+            op, l, r = c
+            if LIMIT in l and "as usize" in l and LIMIT not in r:
+                return op
+            if LIMIT in r and "as usize" in r and LIMIT not in l:
+                return {"<": ">", "<=": ">=", "==": "==", "!=": "!="}.get(op)
+            return None
+        form_ok = True
+        verdict_ok = bool(some_o)
+        hits = 0
+        found = []
+        for o in (some_o or []):
+            tl = any(_too_large(v) for v in o["values"])
+            t_ops = [limit_cmp(t) for t in o["true"]]
+            f_ops = [limit_cmp(t) for t in o["false"]]
+            found += [x for x in t_ops + f_ops if x]
+            if tl:
+                hits += 1
+                # the refusal requires a test that held: `limit as usize < len`
+                if "<" not in t_ops:
+                    verdict_ok = False
+                    if any(x for x in t_ops + f_ops if x):
+                        form_ok = False
+                if not all(_too_large(v) for v in o["values"]):
+                    verdict_ok = False
+            else:
+                # an accepted packet was not tested to exceed the limit
+                if "<" in t_ops:
+                    verdict_ok = False
+        if any(x not in ("<",) for x in found):
+            form_ok = False
+        n += 1
+        R.ob("pred/form/%s" % key, form_ok and bool(found),
+             "size predicate in %s must be `len > max as usize` (a packet of exactly the maximum size is legal, one byte more "
+             "is not); found comparison(s) %s of `limit as usize` with the length" % (b.fn_name, sorted(set(found))), where=b.span)
+        R.ob("pred/verdict/%s" % key, ok_none and verdict_ok and hits >= 1,
+             "%s answers PacketTooLarge exactly on the edge where the predicate holds for a present broker limit, and never "
+             "without a limit" % b.fn_name, where=b.span)
     R.floor("pred", n, 4, "size predicates")
 
 
